@@ -83,9 +83,12 @@ pub fn request_params_at(kind: &str, uri: &str, line: usize, character: usize) -
 
 /// Waits for a response; a timeout only counts as a deadlock with evidence that every server
 /// thread is blocked. Err(Some(failure)) = deadlock, Err(None) = inconclusive.
-pub fn await_or_diagnose(c: &mut Client, id: i64, what: &str, patience: Duration, sched: &Sched) -> Result<Value, Option<Failure>> {
+/// `expected_spawns`: the number of tasks the messages sent so far make the server spawn at least (one for
+/// every didOpen/didChange with a text, one for every request); 0 = not known.
+pub fn await_or_diagnose(c: &mut Client, id: i64, what: &str, patience: Duration, sched: &Sched, expected_spawns: u64) -> Result<Value, Option<Failure>> {
     let mut waited = Duration::ZERO;
     let step = Duration::from_millis(400);
+    let cpu_before = crate::lspc::thread_cpu_seconds(&c.thread_tag);
     loop {
         match c.wait_response(id, step) {
             Ok(v) => return Ok(v),
@@ -94,15 +97,25 @@ pub fn await_or_diagnose(c: &mut Client, id: i64, what: &str, patience: Duration
             }
             Err(RecvError::Timeout) => {
                 waited += step;
-                let (mut blocked, states) = all_blocked(&c.thread_tag, 4, Duration::from_millis(40));
+                // A standstill: over three and a half seconds no server thread computes (its processor time does not
+                // grow), the threads that wait for a lock or a condition are never scheduled, and every other
+                // thread is seen waiting for input (epoll) at some sample - the runtime wakes such a thread
+                // several times a second and it goes back to waiting; a thread that computes but is starved by a
+                // loaded machine is never seen there. The first quick look uses the cheap rule.
+                let (quick, states) = all_blocked(&c.thread_tag, 2, Duration::from_millis(20));
+                let any_asleep = quick || states.iter().any(|t| t.wchan.contains("futex"));
                 if std::env::var("VERIF_C08_DEBUG").is_ok() {
-                    eprintln!("{waited:?} blocked={blocked} {:?}", states.iter().map(|t| format!("{}:{}:{}:{}", t.tid, t.state, t.switches, t.wchan.trim())).collect::<Vec<_>>());
+                    let st = sched.st.lock().unwrap();
+                    eprintln!("{waited:?} spawned {} ended {} expected {expected_spawns} {:?}", st.spawned, st.ended, states.iter().map(|t| format!("{}:{}:{}:{}", t.tid, t.state, t.switches, t.wchan.trim())).collect::<Vec<_>>());
                 }
-                if blocked && waited >= Duration::from_millis(800) {
+                let mut blocked = false;
+                if any_asleep && waited >= Duration::from_millis(800) {
+                    let cpu_a = crate::lspc::thread_cpu_seconds(&c.thread_tag);
+                    let a = crate::lspc::thread_states(&c.thread_tag);
+                    let mut seen_waiting: std::collections::BTreeSet<u64> = a.iter().filter(|t| t.wchan.contains("ep_poll")).map(|t| t.tid).collect();
                     // a deadlock lasts. On a loaded machine the answer may be on its way (written by the
-                    // server, not yet read by this client's own threads) while every server thread sleeps:
-                    // the verdict is given only if nothing at all has moved three seconds later
-                    for _ in 0..6 {
+                    // server, not yet read by this client's own threads) while every server thread sleeps
+                    for _ in 0..7 {
                         match c.wait_response(id, Duration::from_millis(500)) {
                             Ok(v) => return Ok(v),
                             Err(RecvError::Closed) => {
@@ -110,28 +123,55 @@ pub fn await_or_diagnose(c: &mut Client, id: i64, what: &str, patience: Duration
                             }
                             Err(RecvError::Timeout) => waited += Duration::from_millis(500),
                         }
+                        seen_waiting.extend(crate::lspc::thread_states(&c.thread_tag).iter().filter(|t| t.wchan.contains("ep_poll")).map(|t| t.tid));
                     }
-                    let (still, later) = all_blocked(&c.thread_tag, 4, Duration::from_millis(40));
-                    blocked = still && crate::lspc::same_standstill(&later, &states);
-                    // a main loop that waits for input has nothing to do. If no task is alive either (every one
-                    // that was spawned has reported its end), the server owes nothing: the answer is on its way
-                    // to this client's own reader thread, which a loaded machine may starve for seconds
-                    if blocked && states.iter().any(|t| t.wchan.contains("ep_poll")) {
+                    let cpu_b = crate::lspc::thread_cpu_seconds(&c.thread_tag);
+                    let b = crate::lspc::thread_states(&c.thread_tag);
+                    let same_threads = a.len() == b.len() && a.iter().zip(&b).all(|(x, y)| x.tid == y.tid);
+                    let nobody_computes = cpu_b.iter().all(|(tid, s)| s - cpu_a.get(tid).copied().unwrap_or(0.0) < 0.05);
+                    let sleepers_unscheduled = a.iter().zip(&b).all(|(x, y)| {
+                        if x.wchan.contains("futex") {
+                            y.wchan.contains("futex") && x.switches == y.switches
+                        } else {
+                            seen_waiting.contains(&x.tid)
+                        }
+                    });
+                    let some_sleeper = a.iter().any(|t| t.wchan.contains("futex"));
+                    blocked = !a.is_empty() && same_threads && nobody_computes && sleepers_unscheduled && some_sleeper;
+                    // A server that owes nothing is idle, not stuck: every task that was spawned has reported its
+                    // end, and as many were spawned as the messages sent so far call for - the answer is on its
+                    // way to this client's own reader thread, which a loaded machine may starve for seconds.
+                    // (A thread in epoll need not be the main loop: when that is stuck in a handler, the runtime's
+                    // other worker waits there for the pipes, and what was sent is never picked up.)
+                    if blocked {
                         let st = sched.st.lock().unwrap();
-                        if st.spawned == st.ended {
+                        if st.spawned == st.ended && st.spawned >= expected_spawns {
                             blocked = false;
                         }
                     }
                 }
+                let states = if blocked { crate::lspc::thread_states(&c.thread_tag) } else { states };
                 if blocked && waited >= Duration::from_millis(800) {
                     let dump: Vec<String> = states.iter().map(|t| format!("tid {} state {} syscall {} wchan {}", t.tid, t.state, t.syscall, t.wchan.trim())).collect();
                     return Err(Some(Failure::new(
                         "C08.deadlock",
                         "C08.deadlock",
-                        format!("no response to {what} after {:?}; every server thread sleeps (those that wait for a lock with unchanged context-switch counters, the main loop waiting for input) at every sample since: {dump:?}", waited),
+                        format!("no response to {what} after {:?}; no server thread has computed since (processor time unchanged), those that wait for a lock were never scheduled, the others wait for input: {dump:?}", waited),
                     )));
                 }
                 if waited >= patience {
+                    // not asleep, and not getting anywhere: a server thread that has burnt a processor for most of
+                    // the wait (processor time, not wall clock: a loaded machine does not add to it) over
+                    // documents of a few lines that are analysed in milliseconds spins
+                    let cpu_now = crate::lspc::thread_cpu_seconds(&c.thread_tag);
+                    let burnt = cpu_now.iter().map(|(tid, s)| s - cpu_before.get(tid).copied().unwrap_or(0.0)).fold(0.0f64, f64::max);
+                    if burnt >= 20.0 && patience >= Duration::from_secs(30) {
+                        return Err(Some(Failure::new(
+                            "C08.spinning",
+                            "C08.spinning",
+                            format!("no response to {what} after {waited:?}, while one server thread has used {burnt:.0} s of processor time: {:?}", states.iter().map(|t| format!("tid {} state {} wchan {}", t.tid, t.state, t.wchan.trim())).collect::<Vec<_>>()),
+                        )));
+                    }
                     if std::env::var("VERIF_C08_DEBUG").is_ok() {
                         eprintln!("inconclusive wait for {what}: {:?}", states.iter().map(|t| format!("tid {} state {} syscall {} wchan {}", t.tid, t.state, t.syscall, t.wchan.trim())).collect::<Vec<_>>());
                     }
@@ -184,6 +224,7 @@ fn run_burst(case: &Case) -> Verdict {
     };
     let mut version = 1;
     let mut disk_writes: u64 = 0;
+    let mut expected_spawns: u64 = 0;
     let mut outstanding: Vec<(i64, String)> = Vec::new();
     let mut opened = [false, false, false];
     let mut concurrent = false;
@@ -207,6 +248,7 @@ fn run_burst(case: &Case) -> Verdict {
                 } else {
                     c.did_change(&uris[d], version, &text);
                 }
+                expected_spawns += 1;
                 if c.sent_notifications >= 2 {
                     concurrent = true;
                 }
@@ -219,6 +261,7 @@ fn run_burst(case: &Case) -> Verdict {
                     _ => request_params(op[2].as_str().unwrap_or("documentSymbol"), &uris[target]),
                 };
                 let id = c.send_request(&m, p);
+                expected_spawns += 1;
                 outstanding.push((id, m));
             }
             "close" => {
@@ -264,11 +307,12 @@ fn run_burst(case: &Case) -> Verdict {
         let target = opened.iter().position(|o| *o).unwrap_or(0);
         let (m, p) = request_params("foldingRange", &uris[target]);
         let id = c.send_request(&m, p);
+        expected_spawns += 1;
         outstanding.push((id, format!("{m} (barrier)")));
     }
     let mut verdict = Verdict::Pass { nontrivial: concurrent && !outstanding.is_empty(), labels: vec![] };
     for (id, what) in outstanding {
-        match await_or_diagnose(&mut c, id, &what, Duration::from_secs(30), &sched) {
+        match await_or_diagnose(&mut c, id, &what, Duration::from_secs(30), &sched, expected_spawns) {
             Ok(v) => {
                 if v.get("error").is_some() && v["error"]["code"].as_i64() != Some(-32800) {
                     // an error response is still a response; internal errors are C03's business
@@ -467,8 +511,10 @@ pub fn run_schedule(handler: &str, requests: &[String], choices: &[String]) -> R
     // every request and a barrier must be answered
     let (m, p) = request_params("foldingRange", &uris[0]);
     ids.push((c.send_request(&m, p), format!("{m} (barrier)")));
+    // at least: the first didOpen, the change N0, every request and the barrier
+    let expected_spawns = 2 + ids.len() as u64;
     for (id, what) in ids {
-        match await_or_diagnose(&mut c, id, &what, Duration::from_secs(20), &sched) {
+        match await_or_diagnose(&mut c, id, &what, Duration::from_secs(20), &sched, expected_spawns) {
             Ok(_) => {}
             Err(Some(f)) => return finish(c, steps, Outcome::Deadlock(f.detail), conc),
             Err(None) => return finish(c, steps, Outcome::Inconclusive(format!("no answer to {what}")), conc),
